@@ -66,6 +66,7 @@ type modeInterp struct {
 	direct         map[*ssa.Function]bool
 	memo           map[string]*ssa.Instruction
 	depthLimit     int
+	evalDepth      int
 }
 
 func predName(v ssa.Value, preds map[string]bool) string {
@@ -98,6 +99,10 @@ func (mi *modeInterp) eval(v ssa.Value, env modeEnv) boolVal {
 			if a, ok := x.X.(*ssa.Alloc); ok {
 				return env["v:"+a.Name()]
 			}
+			// load of a captured bool variable: the value(s) the enclosing function stored to it
+			if fv, ok := x.X.(*ssa.FreeVar); ok {
+				return mi.evalAll(freeVarStores(fv), env)
+			}
 			if k := condKey(x, mi.preds); k != "" {
 				return env[k]
 			}
@@ -107,7 +112,24 @@ func (mi *modeInterp) eval(v ssa.Value, env modeEnv) boolVal {
 			return env["p:"+n]
 		}
 		return env["v:"+x.Name()]
-	case *ssa.Phi, *ssa.Parameter, *ssa.FreeVar:
+	case *ssa.Phi:
+		if r := env["v:"+v.Name()]; r != bUnknown {
+			return r
+		}
+		// a bool phi (a || b, a && b) whose every incoming value is decided the same way by the mode
+		return mi.evalAll(x.Edges, env)
+	case *ssa.FreeVar:
+		if r := env["v:"+v.Name()]; r != bUnknown {
+			return r
+		}
+		// a bool captured by value: evaluate what the enclosing function bound
+		if root := freeVarRoot(x); root != ssa.Value(x) {
+			if _, isAlloc := root.(*ssa.Alloc); !isAlloc {
+				return mi.evalAll([]ssa.Value{root}, env)
+			}
+		}
+		return bUnknown
+	case *ssa.Parameter:
 		return env["v:"+v.Name()]
 	case *ssa.BinOp:
 		if k, ok := nilKey(x); ok {
@@ -127,6 +149,31 @@ func (mi *modeInterp) eval(v ssa.Value, env modeEnv) boolVal {
 		return env["v:"+x.Name()]
 	}
 	return bUnknown
+}
+
+// evalAll: the common definite value of all vs under env that does not depend on the path taken
+// (only mode predicates and condition keys, no per-path "v:" facts), or unknown.
+func (mi *modeInterp) evalAll(vs []ssa.Value, env modeEnv) boolVal {
+	if len(vs) == 0 || mi.evalDepth > 6 {
+		return bUnknown
+	}
+	mi.evalDepth++
+	defer func() { mi.evalDepth-- }()
+	stable := modeEnv{}
+	for k, v := range env {
+		if !strings.HasPrefix(k, "v:") && !strings.HasPrefix(k, "t:") {
+			stable[k] = v
+		}
+	}
+	res := bUnknown
+	for i, v := range vs {
+		r := mi.eval(v, stable)
+		if r == bUnknown || (i > 0 && r != res) {
+			return bUnknown
+		}
+		res = r
+	}
+	return res
 }
 
 // condKey: a stable key for conditions whose outcome is assumed consistent within one call:
